@@ -486,7 +486,7 @@ def run_max_freq(case, ob, site):
     pre = [z3.fpGEQ(Lv, z3.FPVal(0.0, F64)), z3.fpLEQ(Lv, z3.FPVal(1e9, F64))]
     with stubs(analysis, max=lambda xs: list(xs)[0]):
         got = ta.max_freq(tech_in_nm=case['tech'], ffoverhead=case['ff']) if case['ff'] is not None else ta.max_freq(tech_in_nm=case['tech'])
-    scale = z3.FPVal(130.0 / case['tech'], F64)
+    scale = z3.FPVal(case['tech'] / 130.0, F64)      # Dennard scaling: delays shrink with the feature size
     if case['ff'] is None:
         period = z3.fpMul(RM, scale, z3.fpAdd(RM, z3.fpAdd(RM, Lv, z3.FPVal(189.0, F64)), z3.FPVal(194.0, F64)))
     else:
@@ -568,7 +568,7 @@ def replay(cex):
         ta = analysis.TimingAnalysis(block=block)
         ta.timing_map = {w: float(L) for w in ta.timing_map}
         got = ta.max_freq(tech_in_nm=c['tech'], ffoverhead=c['ff']) if c['ff'] is not None else ta.max_freq(tech_in_nm=c['tech'])
-        scale = 130.0 / c['tech']
+        scale = c['tech'] / 130.0
         period = scale * (float(L) + 189.0 + 194.0) if c['ff'] is None else scale * float(L) + float(c['ff'])
         exp = 1e6 * 1.0 / period
         return got != exp, 'max_length=%r tech=%r ffoverhead=%r: max_freq() = %r, documented formula gives %r' % (
